@@ -181,6 +181,36 @@ class PickleMap(MutableMapping):
         return k in self.raw
 
 
+def open_fds():
+    """number of open file descriptors of this process"""
+    return len(os.listdir('/proc/self/fd'))
+
+
+class FdGuard(object):
+    """with FdGuard('stream name'): ...  raises if the block leaks descriptors"""
+    peak = 0
+
+    def __init__(self, what, slack=16):
+        self.what = what
+        self.slack = slack
+
+    @staticmethod
+    def sample():
+        FdGuard.peak = max(FdGuard.peak, open_fds())
+
+    def __enter__(self):
+        self.before = open_fds()
+        FdGuard.peak = max(FdGuard.peak, self.before)
+        return self
+
+    def __exit__(self, et, ev, tb):
+        after = open_fds()
+        FdGuard.peak = max(FdGuard.peak, after)
+        if et is None and after > self.before + self.slack:
+            raise RuntimeError('file descriptor leak in %s: %d open before, %d after' % (self.what, self.before, after))
+        return False
+
+
 # ------------------------------------------------------------------- gates
 class Gates(object):
     """Every substrate command of a gated greenlet blocks here until the
@@ -555,7 +585,9 @@ class _OsProxy(object):
 
     def open(self, path, flags, *a):
         self.h.effect(('read', self.h.canon_path(path)))
-        return os.open(path, flags, *a)
+        fd = os.open(path, flags, *a)
+        self.h.fds.add(fd)
+        return fd
 
     def listdir(self, path):
         self.h.effect(('listdir',))
@@ -566,11 +598,17 @@ class _OsProxy(object):
         return sorted(os.listdir(path), key=key)
 
     def close(self, fd):
+        # The descriptor is closed for real whatever happens at the effect hook:
+        # a simulated kill at this point (Crash, GreenletExit at the gate) means
+        # the code's close never "happened", but the harness must not keep the fd.
         t = self.h.fd_tmp.get(fd)
-        if t is not None:
-            self.h.effect(('close', t))
+        try:
+            if t is not None:
+                self.h.effect(('close', t))
+        finally:
             self.h.fd_tmp.pop(fd, None)
-        return os.close(fd)
+            self.h.fds.discard(fd)
+            os.close(fd)
 
 
 class DiskHarness(object):
@@ -595,6 +633,7 @@ class DiskHarness(object):
         self.aborted = False
         self.quiet = False       # recovery reads by the harness: no log, no gate, no crash
         self.fd_tmp = {}
+        self.fds = set()         # every descriptor handed to the code under test and not yet closed
         self.on_effect = None
 
     # -- life cycle
@@ -633,8 +672,24 @@ class DiskHarness(object):
             else:
                 setattr(ds, k, v)
         ds.AioFile.chunk_size = self.saved_chunk
+        self.close_leaked()
         shutil.rmtree(self.root, ignore_errors=True)
         return False
+
+    def close_leaked(self):
+        """descriptors handed out by mkstemp / os.open that the code under test never
+        closed (an operation killed before its finally ran, or a tree that forgot
+        the close): closed here, after judging.  Returns how many there were."""
+        n = 0
+        for fd in list(self.fds):
+            try:
+                os.close(fd)
+                n += 1
+            except OSError:
+                pass
+        self.fds.clear()
+        self.fd_tmp.clear()
+        return n
 
     def storage(self):
         return self.ds.DiskStorage(self.env_dir, self.meta_dir, self.tmp_dir)
@@ -644,7 +699,7 @@ class DiskHarness(object):
             for f in os.listdir(d):
                 os.remove(os.path.join(d, f))
         self.log = []
-        self.fd_tmp = {}
+        self.close_leaked()
 
     # -- paths
     def canon_path(self, path):
@@ -704,6 +759,7 @@ class DiskHarness(object):
         path = os.path.join(self.tmp_dir, 't%d' % t)
         fd = os.open(path, os.O_RDWR | os.O_CREAT | os.O_EXCL, 0o600)
         self.fd_tmp[fd] = t
+        self.fds.add(fd)
         return fd, path
 
     def _aio_write(self, fd, piece, offset, callback):
